@@ -1,0 +1,11 @@
+//go:build verif
+
+package peersync
+
+// Verification hook (add-only, compiled only with -tags verif).
+
+// VerifLocalCapabilityForPeer exposes localCapabilityForPeer, the capability
+// the node advertises to the given peer.
+func (ps *PeerSync) VerifLocalCapabilityForPeer(peer PeerID) *PeerCapability {
+	return ps.localCapabilityForPeer(peer)
+}
